@@ -232,7 +232,7 @@ func main() {
 
 			// ---------- structural edits on the parsed header, re-serialised canonically
 			c.Part("structural")
-			c.Bound("per-field substitutions (type, each argument, body: one symbol / one byte / length +-1 / emptied), stanza deletion, duplication, insertion of 6 kinds of grease or attacker-made stanzas at every position, all permutations of the stanzas, MAC replaced (zeros, other file's MAC, MAC under a wrong key, MAC of the edited header under a wrong key)")
+			c.Bound("per-field substitutions (type, each argument incl. 9 respellings such as base64 padding, other case, a doubled or shortened value; body: one symbol / one byte / length +-1 / emptied), stanza deletion, duplication, insertion of 6 kinds of grease or attacker-made stanzas at every position, all permutations of the stanzas, MAC replaced (zeros, other file's MAC, MAC under a wrong key, MAC of the edited header under a wrong key)")
 			ser := func(h *refage.Header) []byte { return refage.Marshal(h) }
 			n := len(t.h.Stanzas)
 			otherMAC := bytes.Repeat([]byte{0x5a}, 32)
@@ -261,6 +261,18 @@ func main() {
 						}
 						h.Stanzas[i].Args[a] = string(s)
 					})
+					// spellings another decoder might take for the same value: base64 padding, a trailing/leading
+					// character, other case, a doubled argument
+					for vi, v := range []func(string) string{
+						func(x string) string { return x + "=" }, func(x string) string { return x + "==" }, func(x string) string { return x + "A" },
+						func(x string) string { return "A" + x }, func(x string) string { return strings.ToUpper(x) }, func(x string) string { return strings.ToLower(x) },
+						func(x string) string { return x + x }, func(x string) string { return x[:len(x)-1] }, func(x string) string { return "0" + x },
+					} {
+						v := v
+						edit(fmt.Sprintf("s%d.a%d.respell%d", i, a, vi), "respell one argument", func(h *refage.Header) {
+							h.Stanzas[i].Args[a] = v(h.Stanzas[i].Args[a])
+						})
+					}
 					edit(fmt.Sprintf("s%d.a%d.del", i, a), "delete an argument", func(h *refage.Header) {
 						h.Stanzas[i].Args = append(append([]string{}, h.Stanzas[i].Args[:a]...), h.Stanzas[i].Args[a+1:]...)
 					})
